@@ -268,6 +268,17 @@ def search(ctx):
                         ctx.violation("C16:tiff-quantisation", "TIFF round trip off by %.4g > stated quantisation %.4g" % (dev, rng_ * 0.500001 / 255), dict(info, kind="tiff"))
                     if not np.allclose(get_spacing(back), get_spacing(im)) or not all(_attrs_equal(back.attrs.get(k), im.attrs.get(k)) for k in ('medium_index', 'illum_wavelen', 'noise_sd')):
                         ctx.violation("C16:tiff-metadata", "TIFF round trip lost spacing or metadata", dict(info, kind="tiff"))
+                    # deeper files: the stated quantisation is one level of 2^15 - 1 (16 bit, signed) or 2^31 - 1 (32 bit)
+                    if i % 2 == 0:
+                        for depth, levels in ((16, 2 ** 15 - 1), (32, 2 ** 31 - 1)):
+                            ctx.tried("tiff-depth", (shape, depth, i))
+                            pathd = os.path.join(WORK, "img%d_%d.tif" % (i, depth))
+                            save_image(pathd, im, scaling='auto', depth=depth)
+                            backd = hp.load(pathd)
+                            devd = float(np.abs(backd.values.squeeze() - vals).max())
+                            if not (devd <= rng_ * 0.500001 / levels * (1 + 1e-6) + 1e-9 * abs(vals).max()):
+                                ctx.violation("C16:tiff-quantisation:%d" % depth, "%d-bit TIFF round trip off by %.4g > stated quantisation %.4g (image range %.4g)" % (depth, devd, rng_ * 0.5 / levels, rng_),
+                                              dict(info, kind="tiff", depth=depth))
                 # update_metadata: new image, only the named fields changed, original untouched
                 snap = (im.values.copy(), {k: (v.copy() if hasattr(v, 'copy') else v) for k, v in im.attrs.items()})
                 new = update_metadata(im, medium_index=1.234, illum_polarization=(3, 4))
